@@ -218,6 +218,26 @@ def run(ctx):
                          'b': fx((s2.displacement(p * k_) - s2.displacement(q * k_)) / k_) + fx(s2.stress(p * k_) / nrm) + fx(s2.burgers / k_), 'tol': 16})
         except Exception as e:
             ctx.violation('Volterra solution for a Burgers vector of order 1e-10 raised %s' % excname(e), repr(e)[:200] + ' ' + cname)
+    # ---- the solved problem does not change when the caller re-uses its ElasticConstants object afterwards (default orientation and a
+    #      rotated one): stress, strain and the stored stiffness stay those of the problem that was solved
+    for cname in ('cubic1', 'hexagonal', 'isotropic'):
+        for tr_ in (None, rot_from_quat(np.array([3, 1, -2, 1]))):
+            try:
+                Cm = classes[cname]()
+                b0 = np.array([0.75, 0.0, -0.5]) if cname == 'isotropic' else np.array([0.75, 0.25, -0.5])
+                sm = solve_volterra_dislocation(Cm, b0) if tr_ is None else solve_volterra_dislocation(Cm, tr_.T @ b0, transform=tr_)
+                p = np.array([1.7, -2.3, 0.0])
+                before = (sm.stress(p).copy(), sm.strain(p).copy(), sm.displacement(p).copy())
+                nrm = np.abs(before[0]).max()
+                Cm.Cij = classes['cubic2']().Cij * 1.7                      # the caller moves on to another material with the same object
+                after = (sm.stress(p), sm.strain(p), sm.displacement(p))
+                recs.append({'ev': 'covar', 'tag': 'caller_reuses_C:%s:%s' % (cname, 'default' if tr_ is None else 'rotated'),
+                             'a': fx(before[0] / nrm) + fx(before[1] / np.abs(before[1]).max()) + fx(before[2]),
+                             'b': fx(after[0] / nrm) + fx(after[1] / np.abs(before[1]).max()) + fx(after[2]), 'tol': 4})
+            except ValueError:
+                refusals += 1
+            except Exception as e:
+                ctx.violation('Volterra solution raised %s when the caller re-used its constants' % excname(e), repr(e)[:200] + ' ' + cname)
     # ---- field points of integer type (python ints, integer arrays): the same fields as at the equal float points ---------------------
     for cname in ('isotropic', 'cubic2'):
         try:
